@@ -87,8 +87,37 @@ def lifted_method(o, name, args, kw):
 
 
 class SRange:
+    """range(stop) with a symbolic stop; iterated only through a cut for-loop"""
+
     def __init__(self, *a):
-        raise Unsupported("range() with symbolic bounds")
+        if len(a) != 1:
+            raise Unsupported("range() with symbolic bounds other than range(stop)")
+        self.stop = a[0]
+
+    def sym_iter(self, k, spec):
+        return _RangeIter(self.stop)
+
+
+class _RangeIter:
+    def __init__(self, stop):
+        self.stop = stop
+        self.i = 0
+
+    def havoc(self, name):
+        from .values import fresh_int
+
+        self.i = fresh_int(name, register=False)
+        c = ctx()
+        c.add(tint(self.i) >= 0)
+        c.add(tint(self.i) <= z3.If(tint(self.stop) >= 0, tint(self.stop), 0))
+
+    def has_next(self, L):
+        return ctx().branch(tint(self.i) < tint(self.stop), "range.has_next")
+
+    def next(self):
+        v = self.i
+        self.i = self.i + 1
+        return v
 
 
 class SAwait:
